@@ -27,10 +27,79 @@ def grow_variants(rp, desc):
     return [("node-without-route", add_isolated), ("node-with-route", add_served), ("two-nodes", add_two)]
 
 
+def first_touch(rp, first):
+    """One query on an object whose problem data were just changed; returns problems [(sig, msg, extra)]."""
+    def shp(M):
+        return tuple(int(v) for v in M.shape)
+    try:
+        if first == "qubo":
+            Q, _k = rp.get_qubo(feasibility=False, penalty_parameter=None)
+            n = int(rp.get_num_variables())
+            ok, what = shp(Q) == (n, n), f"Q{shp(Q)}"
+        elif first == "obj":
+            c, Qo = rp.get_objective_data()
+            n = int(rp.get_num_variables())
+            ok, what = (len(c) == n and shp(Qo) == (n, n)), f"len(c)={len(c)}, Qo{shp(Qo)}"
+        elif first == "con":
+            A, b, R, _r = rp.get_constraint_data()
+            n = int(rp.get_num_variables())
+            ok, what = (shp(A) == (len(b), n) and shp(R) == (n, n)), f"A{shp(A)}, len(b)={len(b)}, R{shp(R)}"
+        else:
+            return []
+    except Exception as e:  # noqa
+        return [("oracle/dims/first-query-raises", f"the first query after the change ({first}) raised {type(e).__name__}: {e}",
+                 {"first_query": first})]
+    if not ok:
+        return [("oracle/dims/first-query-shapes", f"the first query after the change ({first}) returned {what} on a model that then "
+                 f"reports n={n} variables", {"first_query": first})]
+    return []
+
+
+def exit_arc_stream(ctx, check_instance, count, reported):
+    """Arc-based problems: queried, then the public `check_and_add_exit_arc` gives a customer without an arc back to the
+    depot one (what the feasibility heuristic does for a stranded customer), then queried again.  The variable count
+    changes; the objective, constraint and QUBO data reported afterwards must have the new, mutually consistent
+    dimensions and satisfy the identity.  (Seeded change C02_n resets only the enumeration flag there.)"""
+    rng = ctx.rng
+    done = 0
+    for case in fh.gen_objects(rng, 4 * count, 10, kinds=("arc",)):
+        if done >= count:
+            break
+        desc = case["desc"]
+        rp = fh.BUILDERS["arc"](desc)
+        try:
+            stranded = [k for k in range(1, len(rp.nodes)) if not rp.check_arc((k, 0))]
+            if not stranded or int(rp.get_num_variables()) < 1:
+                continue
+            check_instance(rp, rng)
+            k = stranded[rng.randrange(len(stranded))]
+            cost = rng.choice([0, 1, 3, 7])
+            rp.check_and_add_exit_arc(k, cost)
+        except Exception:  # noqa: an instance the first round of queries cannot handle is the business of the main stream
+            continue
+        # the first query after the change may be any of them: what it returns must fit the size reported right after
+        first = rng.choice(["qubo", "obj", "con", "num"])
+        early = first_touch(rp, first)
+        d, S, outs, problems = check_instance(rp, rng)
+        problems = early + list(problems)
+        done += 1
+        for sig, msg, extra in problems:
+            full = f"{sig}/arc/exit-arc-after-query"
+            if full in reported:
+                continue
+            reported.add(full)
+            ctx.violation(full, f"arc, queried, then check_and_add_exit_arc({k}, {cost}), then queried again: {msg}",
+                          dict(fh.describe(case), exit_arc=[k, cost], first_query=first, **{kk: vv for kk, vv in extra.items() if kk != "first_query"},
+                               python="build the arc object from desc, props.c02.check_instance(rp, random.Random(0)), "
+                                      "rp.check_and_add_exit_arc(k, cost), props.c02_grow.first_touch(rp, first_query), then check_instance again"), True)
+    return done
+
+
 def run_stream(ctx, check_instance, count):
     rng = ctx.rng
     done = 0
     reported = set()
+    done += exit_arc_stream(ctx, check_instance, max(6, count), reported)
     for case in fh.gen_objects(rng, count, 10, kinds=("path",)):
         desc = case["desc"]
         for label, mut in grow_variants(case["rp"], desc):
